@@ -184,7 +184,10 @@ def closest_point(mesh, points):
 
     # however: same closest point on two different faces
     # find the best one and correct triangle ids if necessary
-    check_distance = np.ptp(two_dists, axis=1) < tol.merge
+    # the distances are squared lengths so compare them relative to their
+    # magnitude: an absolute tolerance treats every candidate of a small
+    # mesh as "the same point" and then returns one that is not the closest
+    check_distance = np.ptp(two_dists, axis=1) < tol.merge * two_dists.max(axis=1)
     check_magnitude = np.all(np.abs(two_dists) > tol.merge, axis=1)
 
     # mask results where corrections may be apply
